@@ -93,5 +93,5 @@ Lemma gone_witness :
   reachable (step WX) (init PG) sG /\ 0 < st_n sG /\ th_pc (st_thr sG 0) = PIdle /\ th_prog (st_thr sG 0) = [OReload 0 1] /\
   st_created sG 0 = true /\ live sG 0 = false /\ cell_live sG 0 = false.
 Proof.
-  split; [apply reach_run|]. vm_compute. auto.
+  split; [apply reach_run|]. vm_compute. auto 10.
 Qed.
